@@ -1318,9 +1318,9 @@ Theorem mrun_word : forall t m m', mrun t m = Some m' -> c04_word (recvs_of t) (
 Proof.
   induction t as [|e t IH]; intros m m' H; [reflexivity|]. cbn [mrun] in H.
   destruct (mstep m e) as [m1|] eqn:E; [|discriminate]. specialize (IH _ _ H).
-  destruct e; try (pose proof (mstep_nonrecv _ _ _ E) as Hn; cbn in Hn; destruct Hn as [Hc Hw];
-                   rewrite Hc, Hw in IH; exact IH).
-  cbn [recvs_of]. eapply mstep_recv_word; eassumption.
+  destruct e as [ |i mw msg sd| | | | | | | | | | | | | | | ].
+  2:{ cbn [recvs_of]. eapply mstep_recv_word; eassumption. }
+  all: pose proof (mstep_nonrecv _ _ _ E) as [Hc Hw]; rewrite Hc, Hw in IH; exact IH.
 Qed.
 
 (* once the actor is being cleaned up only the cleanup sequence follows *)
@@ -1534,16 +1534,16 @@ Qed.
 
 (** C04: the incarnation that is running has handled Started *)
 Lemma mrun_reach_run : forall t m m', mrun t m = Some m' -> m_ctl m' = PRun ->
-  ((m_ctl m = PRun \/ m_ctl m = PStartedH) /\ m_cur m = m_cur m' /\ dlv t = dlv t) \/
+  ((m_ctl m = PRun \/ m_ctl m = PStartedH) /\ m_cur m = m_cur m') \/
   (exists t1 sd t2, t = t1 ++ Recv (m_cur m') true LStarted sd :: t2).
 Proof.
   induction t as [|e t IH]; intros m m' H Hk; cbn [mrun] in H.
-  - injection H as <-. left. repeat split. left; exact Hk.
+  - injection H as <-. left. split; [left; exact Hk|reflexivity].
   - destruct (mstep m e) as [m1|] eqn:E; [|discriminate].
-    destruct (IH _ _ H Hk) as [(Hk1 & Hc & _)|(t1 & sd & t2 & ->)].
+    destruct (IH _ _ H Hk) as [(Hk1 & Hc)|(t1 & sd & t2 & ->)].
     + destruct m as [cur w k]. destruct m1 as [cur1 w1 k1]. cbn [m_ctl m_cur] in *. subst cur1.
       destruct Hk1 as [-> | ->]; destruct k; de e; ms_inv E. all: injection E as <- <-.
-      all: try (left; repeat split; tauto).
+      all: try (left; split; [tauto|reflexivity]).
       all: right; apply andb_true_iff in Ec as [Ec _]; apply Nat.eqb_eq in Ec; subst.
       all: exists [], sd, t; reflexivity.
     + right. exists (e :: t1), sd, t2. reflexivity.
@@ -2523,3 +2523,805 @@ Proof.
     exists rest. rewrite <- Hm. rewrite dlv_app, D1, acc_app. rewrite !dlv_cons0, !acc_cons0 by reflexivity.
     split; [exact S1|]. intros Hd'. destruct (S2 Hd') as [-> Q2]. split; [reflexivity|]. rewrite Q2, Q1, app_assoc. reflexivity.
 Qed.
+
+(** *** Scenario level *)
+Definition OL (s : pst) (t : list event) (s' : pst) : Prop :=
+  exists rest, uenv (queue s) ++ uacc t = dlv t ++ rest /\ (dead s' = false -> rest = uenv (queue s')).
+
+Lemma OL_refl s : OL s [] s.
+Proof. exists (uenv (queue s)). cbn. rewrite app_nil_r. split; [reflexivity|intros _; reflexivity]. Qed.
+
+Lemma OL_trans s t1 s1 t2 s2 : OL s t1 s1 -> OL s1 t2 s2 ->
+  (dead s1 = true -> dlv t2 = [] /\ dead s2 = true) -> OL s (t1 ++ t2) s2.
+Proof.
+  intros (r1 & E1 & C1) (r2 & E2 & C2) Hd. unfold OL. rewrite uacc_app, dlv_app. destruct (dead s1) eqn:D1.
+  - destruct (Hd eq_refl) as [D2 D3]. exists (r1 ++ uacc t2). rewrite D2, app_nil_r, app_assoc, E1, app_assoc.
+    split; [reflexivity|]. congruence.
+  - rewrite (C1 eq_refl) in E1. exists r2. rewrite app_assoc, E1, <- !app_assoc, E2. split; [reflexivity|exact C2].
+Qed.
+
+Lemma opened_dead s : opened s -> dead s = true -> gone s.
+Proof. intros [[[H _] _]|H] E; [congruence|exact H]. Qed.
+
+Lemma RunLoop_gone c s s' t : RunLoop_s c s s' t -> istatus_stopped s = true -> s' = s /\ t = [].
+Proof. intros H E. destruct H; [split; reflexivity|congruence|congruence]. Qed.
+
+Section OrderRun.
+Variable c : cfg.
+Hypothesis Hs : stopped_safe c.
+
+Lemma RunLoop_OL s s' t : RunLoop_s c s s' t -> opened s -> OL s t s'.
+Proof.
+  induction 1 as [s E|s E Eq|s s1 t1 s2 t2 E Eq Hi Hl IH]; intros Ho; try apply OL_refl.
+  pose proof (opened_mfin_alive _ Ho E) as Ha.
+  destruct (proj1 (safe_mon c Hs) _ _ _ _ Hi) as [_ Hd]; [exact Ha|]. cbn [istatus_stopped upd_queue] in Hd.
+  assert (Ho1 : opened s1) by (destruct Hd as [[? H1]|?]; [left; split; [assumption|exact (H1 E)]|right; assumption]).
+  destruct (proj1 (safe_ord c Hs) _ _ _ _ Hi) as (r1 & E1 & C1); [apply Ha|]. cbn [queue upd_queue] in C1.
+  apply OL_trans with (s1 := s1).
+  - exists (r1 ++ uenv (skipn (batch c) (queue s)) ++ uacc t1).
+    rewrite (uenv_firstn_skipn (batch c) (queue s)) at 1. rewrite E1, <- !app_assoc. split; [reflexivity|].
+    intros D. destruct (C1 D) as [-> ->]. unfold uacc. rewrite uenv_app. reflexivity.
+  - apply IH, Ho1.
+  - intros D. destruct (opened_dead _ Ho1 D) as (_ & _ & Hst & _).
+    destruct (RunLoop_gone _ _ _ _ Hl Hst) as [-> ->]. split; [reflexivity|exact D].
+Qed.
+
+Lemma ext_pre_ord s x s1 t1 : ext_pre s x = (s1, t1) ->
+  queue s1 = queue s ++ acc t1 /\ dlv t1 = [] /\ dead s1 = dead s.
+Proof.
+  destruct x; cbn [ext_pre]; unfold send_self, poison_self; destruct (registered s); intros [= <- <-];
+    cbn; rewrite ?app_nil_r; repeat split.
+Qed.
+
+Lemma ext_pre_OL s x s1 t1 : ext_pre s x = (s1, t1) -> OL s t1 s1.
+Proof.
+  intros H. apply ext_pre_ord in H as (Q & D & _). exists (uenv (queue s1)).
+  rewrite D, Q. unfold uacc. rewrite uenv_app. split; [reflexivity|intros _; reflexivity].
+Qed.
+
+Lemma Exts_gone s xs s' t : Exts_s c s xs s' t -> gone s -> dlv t = [] /\ dead s' = true.
+Proof.
+  induction 1 as [s|s x s1 t1 s2 t2 xs s3 t3 Ep Hl _ IH]; intros Hg; [split; [reflexivity|apply Hg]|].
+  destruct (ext_pre_mon _ _ _ _ Ep (or_intror Hg)) as [_ Ho1].
+  apply ext_pre_ord in Ep as (_ & D1 & X1). assert (D : dead s1 = true) by (rewrite X1; apply Hg).
+  pose proof (opened_dead _ Ho1 D) as Hg1. destruct Hg1 as (_ & _ & Hst & _).
+  destruct (RunLoop_gone _ _ _ _ Hl Hst) as [-> ->].
+  destruct (IH (opened_dead _ Ho1 D)) as [D3 X3]. rewrite !dlv_app, D1, D3. split; [reflexivity|exact X3].
+Qed.
+
+Lemma Exts_OL s xs s' t : Exts_s c s xs s' t -> opened s -> OL s t s'.
+Proof.
+  induction 1 as [s|s x s1 t1 s2 t2 xs s3 t3 Ep Hl He IH]; intros Ho; [apply OL_refl|].
+  destruct (ext_pre_mon _ _ _ _ Ep Ho) as [_ Ho1]. destruct (RunLoop_mon c Hs _ _ _ Hl Ho1) as [_ Ho2].
+  apply OL_trans with (s1 := s1); [eapply ext_pre_OL; exact Ep| |].
+  - apply OL_trans with (s1 := s2); [apply (RunLoop_OL _ _ _ Hl), Ho1|apply IH, Ho2|].
+    intros D. apply (Exts_gone _ _ _ _ He (opened_dead _ Ho2 D)).
+  - intros D. destruct (opened_dead _ Ho1 D) as (_ & _ & Hst & _).
+    destruct (RunLoop_gone _ _ _ _ Hl Hst) as [-> ->]. cbn [app].
+    apply (Exts_gone _ _ _ _ He (opened_dead _ Ho1 D)).
+Qed.
+
+Theorem Run_ord xs s t : Run_s c xs s t ->
+  exists rest, uacc t = dlv t ++ rest /\ (dead s = false -> rest = []).
+Proof.
+  intros Hr. pose proof (Run_queue c Hs _ _ _ Hr) as Hq. destruct Hr as [s0 t0 s1 t1 s2 t2 H0 H1 H2].
+  destruct (Start_init_mon c Hs _ _ H0) as [_ Ho0]. destruct (RunLoop_mon c Hs _ _ _ H1 Ho0) as [_ Ho1].
+  assert (L0 : OL init_pst t0 s0).
+  { destruct (proj1 (proj2 (safe_ord c Hs)) _ _ _ H0 eq_refl) as (r & E & C). cbn [mbuf queue init_pst] in E, C.
+    symmetry in E. apply app_eq_nil in E as [E ->]. exists (uacc t0). cbn [queue init_pst uenv flat_map app]. rewrite E.
+    split; [reflexivity|]. intros D. destruct (C D) as [_ ->]. reflexivity. }
+  assert (L : OL init_pst (t0 ++ t1 ++ t2) s2).
+  { apply OL_trans with (s1 := s0); [exact L0| |].
+    - apply OL_trans with (s1 := s1); [apply (RunLoop_OL _ _ _ H1), Ho0|apply (Exts_OL _ _ _ _ H2), Ho1|].
+      intros D. apply (Exts_gone _ _ _ _ H2 (opened_dead _ Ho1 D)).
+    - intros D. destruct (opened_dead _ Ho0 D) as (_ & _ & Hst & _).
+      destruct (RunLoop_gone _ _ _ _ H1 Hst) as [-> ->]. cbn [app].
+      apply (Exts_gone _ _ _ _ H2 (opened_dead _ Ho0 D)). }
+  destruct L as (rest & E & C). cbn [queue init_pst uenv flat_map app] in E. exists rest. split; [exact E|].
+  intros D. rewrite (C D), Hq. reflexivity.
+Qed.
+
+End OrderRun.
+
+(** *** Subsequences *)
+Inductive Subseq {A} : list A -> list A -> Prop :=
+| SubNil : Subseq [] []
+| SubSkip a l1 l2 : Subseq l1 l2 -> Subseq l1 (a :: l2)
+| SubTake a l1 l2 : Subseq l1 l2 -> Subseq (a :: l1) (a :: l2).
+
+Lemma Subseq_nil_l {A} (l : list A) : Subseq [] l.
+Proof. induction l; [constructor|apply SubSkip; assumption]. Qed.
+Lemma Subseq_refl {A} (l : list A) : Subseq l l.
+Proof. induction l; [constructor|apply SubTake; assumption]. Qed.
+Lemma Subseq_app {A} (a1 b1 a2 b2 : list A) : Subseq a1 b1 -> Subseq a2 b2 -> Subseq (a1 ++ a2) (b1 ++ b2).
+Proof. induction 1; intros H2; cbn; [exact H2|apply SubSkip; auto|apply SubTake; auto]. Qed.
+Lemma Subseq_drop_tail {A} : forall (b d r : list A), Subseq (d ++ r) b -> Subseq d b.
+Proof.
+  induction b as [|x b IH]; intros d r H.
+  - inversion H as [E| |]. destruct d; [constructor|discriminate].
+  - inversion H as [|a l1 l2 H1|a l1 l2 H1 E]; subst.
+    + apply SubSkip. eapply IH; exact H1.
+    + destruct d as [|y d]; [apply Subseq_nil_l|]. cbn in E. injection E as -> ->. apply SubTake. eapply IH; exact H1.
+Qed.
+Lemma Subseq_drop_head {A} : forall (b a : list A) x, Subseq (x :: a) b -> Subseq a b.
+Proof.
+  induction b as [|y b IH]; intros a x H; inversion H as [|z l1 l2 H1|z l1 l2 H1]; subst.
+  - apply SubSkip. eapply IH; exact H1.
+  - apply SubSkip. exact H1.
+Qed.
+Lemma Subseq_In {A} (a b : list A) : Subseq a b -> forall x, In x a -> In x b.
+Proof. induction 1; intros x Hx; [exact Hx|right; auto|destruct Hx as [->|Hx]; [left; reflexivity|right; auto]]. Qed.
+Lemma Subseq_NoDup {A} (a b : list A) : Subseq a b -> NoDup b -> NoDup a.
+Proof.
+  induction 1 as [|x l1 l2 H IH|x l1 l2 H IH]; intros Hn; [constructor| |]; inversion Hn as [|? ? Hx Hn']; subst.
+  - apply IH, Hn'.
+  - constructor; [|apply IH, Hn']. intros Hin. apply Hx. eapply Subseq_In; eassumption.
+Qed.
+
+Lemma subseqb_complete : forall b a, Subseq a b -> subseqb a b = true.
+Proof.
+  induction b as [|y b IH]; intros a H.
+  - inversion H. reflexivity.
+  - destruct a as [|x a]; [reflexivity|]. cbn [subseqb]. destruct (x =? y) eqn:E.
+    + apply IH. inversion H as [|z l1 l2 H1|z l1 l2 H1]; subst; [eapply Subseq_drop_head; exact H1|exact H1].
+    + apply IH. inversion H as [|z l1 l2 H1|z l1 l2 H1]; subst; [exact H1|]. rewrite Nat.eqb_refl in E. discriminate.
+Qed.
+
+Lemma nodupb_complete l : NoDup l -> nodupb l = true.
+Proof.
+  induction 1 as [|x l Hx _ IH]; [reflexivity|]. cbn [nodupb]. rewrite IH, andb_true_r.
+  apply negb_true_iff. apply not_true_is_false. intros H. apply existsb_exists in H as (y & Hy & E).
+  apply Nat.eqb_eq in E. subst. contradiction.
+Qed.
+
+(* what was accepted into the inbox was sent, in that order *)
+Lemma acc_sub_sends c (Hs : stopped_safe c) xs s t : Run_s c xs s t -> Subseq (uacc t) (sends_of t).
+Proof.
+  apply (Run_P (fun t => Subseq (uacc t) (sends_of t))).
+  - constructor.
+  - intros a b Ha Hb. rewrite uacc_app, sends_of_app. apply Subseq_app; assumption.
+  - intros s0 n b. unfold send_self. destruct (registered s0); cbn; first [apply Subseq_refl|apply Subseq_nil_l].
+  - intros s0 g. unfold poison_self. destruct (registered s0); cbn; apply Subseq_nil_l.
+  - intros e He. destruct e as [ | | | | | | |[]| | | | | | | | | ]; cbn; try contradiction; apply Subseq_nil_l.
+  - exact Hs.
+Qed.
+
+(** C05: the user messages delivered are exactly a prefix of the user
+    messages accepted into the inbox, in acceptance order — each once (by
+    position, not by value), the failing message not again, everything queued
+    behind it before anything sent later; what was accepted is a subsequence
+    of what was sent; if the actor is still alive everything accepted has
+    been delivered *)
+Theorem C05_delivered_in_send_order_exactly_once_thm :
+  forall f c xs s t, stopped_safe c -> run f c xs = (s, t) -> out_of_fuel t = false ->
+  (exists rest, uacc t = dlv t ++ rest /\ (dead s = false -> rest = [])) /\
+  Subseq (uacc t) (sends_of t) /\
+  Subseq (user_payloads (recvs_of t)) (sends_of t) /\
+  (NoDup (sends_of t) -> NoDup (user_payloads (recvs_of t))).
+Proof.
+  intros f c xs s t Hs H Hf. pose proof (run_sound c Hs _ _ _ _ H Hf) as Hr.
+  pose proof (Run_ord c Hs _ _ _ Hr) as (rest & E & C). pose proof (acc_sub_sends c Hs _ _ _ Hr) as Hsub.
+  assert (Hd : Subseq (dlv t) (sends_of t)) by (rewrite E in Hsub; eapply Subseq_drop_tail; exact Hsub).
+  rewrite dlv_recvs. split; [exists rest; split; assumption|]. split; [exact Hsub|]. split; [exact Hd|].
+  apply Subseq_NoDup, Hd.
+Qed.
+
+(* ------------------------------------------------------------------ *)
+(** * E. Statements on [invoke_loop] and on Spawn *)
+
+(** C07: poison pills are private to the engine *)
+Theorem C07_pills_invisible_thm :
+  forall c s g k b, invoke_msg c s {| emsg := Pill g k; esnd := b |} = (s, [], Normal).
+Proof. reflexivity. Qed.
+
+Definition is_user (e : env) : Prop := match emsg e with User _ => True | _ => False end.
+
+Lemma invoke_msg_no_stop c s e s' t o : invoke_msg c s e = (s', t, o) -> Forall (fun ev => ev <> InboxStop) t.
+Proof.
+  unfold invoke_msg. destruct (emsg e).
+  - intros H. apply recv_inv in H as (ta & -> & H). apply do_actions_frame in H as [_ Hh].
+    constructor; [discriminate|]. revert Hh. apply Forall_impl. intros []; cbn; try contradiction; discriminate.
+  - intros [= <- <- <-]. constructor.
+Qed.
+
+Lemma drain_no_stop c : forall l s n sk s' t o np sk', drain c s l n sk = (s', t, o, np, sk') ->
+  Forall (fun ev => ev <> InboxStop) t.
+Proof.
+  induction l as [|e l IH]; intros s n sk s' t o np sk' H; cbn [drain] in H.
+  - injection H as <- <- <- <- <-. constructor.
+  - destruct (emsg e) eqn:Ee; [|eapply IH; exact H].
+    destruct (invoke_msg c s e) as [[s1 t1] o1] eqn:E1. apply invoke_msg_no_stop in E1. destruct o1.
+    + destruct (drain c s1 l (S n) sk) as [[[[s2 t2] o2] np2] sk2] eqn:E2. injection H as <- <- <- <- <-.
+      apply Forall_app; split; [exact E1|eapply IH; exact E2].
+    + injection H as <- <- <- <- <-. exact E1.
+Qed.
+
+(** C07: a graceful pill drains first: every user envelope of its batch — those
+    before it and those behind it — has been delivered when the inbox is
+    stopped by its cleanup, and its context is cancelled after that *)
+Theorem C07_graceful_pill_drains_first_thm c : forall pre k b post s n s' t np d,
+  Forall is_user pre ->
+  invoke_loop c s (pre ++ {| emsg := Pill true k; esnd := b |} :: post) n = (s', t, Normal, np, d) ->
+  exists t1 t2, t = t1 ++ InboxStop :: t2 /\ dlv t1 = uenv pre ++ uenv post /\
+                Forall (fun ev => ev <> InboxStop) t1 /\ In (Cancel k) t2.
+Proof.
+  induction pre as [|e pre IH]; intros k b post s n s' t np d Hu H.
+  - cbn [app invoke_loop emsg] in H.
+    destruct (drain c s post (S n) []) as [[[[s1 t1] o1] np1] sk1] eqn:E1.
+    pose proof (drain_cnt (inl 0) c _ _ _ _ _ _ _ _ _ E1) as (D1 & D2 & D3 & _).
+    pose proof (drain_no_stop c _ _ _ _ _ _ _ _ _ E1) as Hn.
+    apply drain_ord in E1 as (_ & L1 & _). destruct o1; [|discriminate].
+    destruct (cleanup c s1 (Some k)) as [[s2 t2] o2] eqn:E2. destruct o2; [|discriminate].
+    injection H as <- <- <- <-. apply cleanup_normal_inv in E2 as (sx & tx & _ & _ & ->).
+    exists t1. eexists. split; [cbn [app]; reflexivity|]. specialize (D3 eq_refl).
+    replace (np1 - S n) with (length post) in L1 by lia. rewrite firstn_all in L1.
+    split; [exact L1|]. split; [exact Hn|]. apply in_or_app. left. apply in_or_app. right. right. right.
+    apply in_or_app. right. left. reflexivity.
+  - inversion Hu as [|? ? He Hu']; subst. cbn [app invoke_loop] in H. unfold is_user in He.
+    destruct (emsg e) eqn:Ee; [|contradiction].
+    destruct (invoke_msg c s e) as [[s1 ta] o1] eqn:E1. pose proof (invoke_msg_no_stop _ _ _ _ _ _ E1) as Hn.
+    apply invoke_msg_ord in E1 as (_ & D1 & _). destruct o1; [|discriminate].
+    destruct (invoke_loop c s1 _ (S n)) as [[[[s2 t2] o2] np2] d2] eqn:E2. injection H as <- <- -> <- <-.
+    apply IH in E2 as (t1 & t3 & -> & L & Hn2 & Hc); [|exact Hu'].
+    exists (ta ++ t1), t3. rewrite <- app_assoc. split; [reflexivity|].
+    rewrite dlv_app, D1, L, (uenv_cons e pre), <- app_assoc. split; [reflexivity|].
+    split; [apply Forall_app; split; assumption|exact Hc].
+Qed.
+
+(** C04: Spawn.  Nothing is delivered to a user handler inside Start of a
+    fresh actor: whatever was sent to the PID during Initialized / Started is
+    retained in the inbox, in order; and when Start returns with the actor
+    alive, its current incarnation has handled Started *)
+Theorem C04_spawn_returns_after_started_thm :
+  forall f c s1 t1 o1, stopped_safe c -> start f c init_pst = (s1, t1, o1) -> out_of_fuel t1 = false ->
+  o1 = Normal /\ dlv t1 = [] /\
+  (dead s1 = false ->
+     queue s1 = acc t1 /\ exists t0 sd t2, t1 = t0 ++ Recv (inc s1) true LStarted sd :: t2).
+Proof.
+  intros f c s1 t1 o1 Hs H Hf. destruct (proj1 (proj2 (safe_sound c Hs f)) _ _ _ _ H Hf) as [-> Hst].
+  split; [reflexivity|].
+  destruct (proj1 (proj2 (safe_ord c Hs)) _ _ _ Hst eq_refl) as (rest & E & C). cbn [mbuf queue init_pst] in E, C.
+  symmetry in E. apply app_eq_nil in E as [E _]. split; [exact E|]. intros D. destruct (C D) as [_ Q].
+  split; [exact Q|]. destruct (Start_init_mon c Hs _ _ Hst) as [Hm _].
+  assert (Hf' : mfin s1 = MS (inc s1) 2 PRun) by (unfold mfin; rewrite D; reflexivity). rewrite Hf' in Hm.
+  destruct (mrun_reach_run _ _ _ Hm eq_refl) as [([Hk|Hk] & _)|Hx]; [discriminate Hk|discriminate Hk|exact Hx].
+Qed.
+
+(* when neither Initialized nor Started panics, the first incarnation handles Started inside Spawn *)
+Lemma start_nopanic_started c f s :
+  Forall nopanic (scr c (S (inc s)) LInit) -> Forall nopanic (scr c (S (inc s)) LStarted) ->
+  exists sd, In (Recv (S (inc s)) true LStarted sd) (snd (fst (start (S f) c s))).
+Proof.
+  intros Hi Hst. rewrite start_S. cbv zeta.
+  destruct (recv c (upd_inc s (S (inc s))) true LInit) as [[s1 ti] oi] eqn:Ei.
+  pose proof Ei as Ei'. apply recv_inv in Ei' as (ta & -> & Hda). cbn [inc upd_inc] in Hda.
+  pose proof (do_actions_nopanic _ Hi _ _ _ _ Hda) as ->. apply do_actions_frame in Hda as [(Hinc & _) _].
+  cbn [inc upd_inc] in Hinc.
+  destruct (recv c s1 true LStarted) as [[s2 ts] os] eqn:Es.
+  pose proof Es as Es'. apply recv_inv in Es' as (tb & -> & Hdb). rewrite Hinc in Hdb.
+  pose proof (do_actions_nopanic _ Hst _ _ _ _ Hdb) as ->. exists (csender s1). rewrite Hinc.
+  set (R := Recv (S (inc s)) true LStarted (csender s1)).
+  assert (Hin : forall tl, In R (([Produce (inc (upd_inc s (S (inc s))))] ++ (Recv (inc (upd_inc s (S (inc s)))) true LInit (csender (upd_inc s (S (inc s)))) :: ta) ++ [EvInitialized] ++ R :: tb) ++ tl)).
+  { intros tl. apply in_or_app. left. apply in_or_app. right. apply in_or_app. right. right. left. reflexivity. }
+  destruct (match mbuf s2 with [] => _ | _ => _ end) as [[s3 t3] o3]. destruct o3.
+  - cbn [fst snd]. apply in_or_app. left. apply Hin.
+  - destruct (try_restart f c s3 internal) as [[s4 t4] o4]. cbn [fst snd].
+    apply in_or_app. left. apply in_or_app. left. apply Hin.
+Qed.
+
+(* ------------------------------------------------------------------ *)
+(** * E'. C05: a delivery whose handler panics is followed by Stopped to the
+      same incarnation *)
+
+(* [pend = Some i]: the last delivery, to incarnation i, panicked; the next
+   delivery must be Stopped to i *)
+Definition pstep (c : cfg) (pend : option nat) (e : event) : option (option nat) :=
+  match e with
+  | Recv i _ m _ =>
+    match pend with
+    | Some j => if (i =? j) && lmsg_eqb m LStopped then Some None else None
+    | None => Some (if panics (scr c i m) && negb (lmsg_eqb m LStopped) then Some i else None)
+    end
+  | _ => Some pend
+  end.
+
+Fixpoint prun (c : cfg) (t : list event) (pend : option nat) : option (option nat) :=
+  match t with
+  | [] => Some pend
+  | e :: t' => match pstep c pend e with Some p => prun c t' p | None => None end
+  end.
+
+Lemma prun_app c t1 t2 p : prun c (t1 ++ t2) p = match prun c t1 p with Some p' => prun c t2 p' | None => None end.
+Proof. revert p. induction t1 as [|e t1 IH]; intros p; [reflexivity|]. cbn [app prun]. destruct (pstep c p e); [apply IH|reflexivity]. Qed.
+
+Lemma prun_app_some c t1 t2 p p1 p2 : prun c t1 p = Some p1 -> prun c t2 p1 = Some p2 -> prun c (t1 ++ t2) p = Some p2.
+Proof. intros H1 H2. rewrite prun_app, H1. exact H2. Qed.
+
+Definition norecv (e : event) : Prop := match e with Recv _ _ _ _ => False | _ => True end.
+Lemma prun_norecv c t p : Forall norecv t -> prun c t p = Some p.
+Proof. induction 1 as [|e t He _ IH]; [reflexivity|]. cbn [prun]. destruct e; try contradiction; exact IH. Qed.
+Lemma hev_norecv t : Forall hev t -> Forall norecv t.
+Proof. apply Forall_impl. intros []; cbn; tauto. Qed.
+Lemma prun_cons_norecv c e t p : norecv e -> prun c (e :: t) p = prun c t p.
+Proof. intros He. destruct e; try contradiction; reflexivity. Qed.
+
+Definition isP (o : outcome) : bool := match o with Normal => false | _ => true end.
+
+Lemma do_actions_panics : forall acts s s' t o, do_actions s acts = (s', t, o) -> panics acts = isP o.
+Proof.
+  induction acts as [|a acts IH]; intros s s' t o H; cbn [do_actions] in H.
+  - injection H as <- <- <-. reflexivity.
+  - destruct a; try (injection H as <- <- <-; reflexivity);
+      match type of H with (let '(_, _) := ?X in _) = _ => destruct X as [s1 t1] end;
+      destruct (do_actions s1 acts) as [[s2 t2] o2] eqn:E2; injection H as <- <- <-; cbn [panics existsb orb];
+      eapply IH; exact E2.
+Qed.
+
+Lemma recv_pmon c s m s' t o : recv c s true m = (s', t, o) ->
+  prun c t None = Some (if isP o && negb (lmsg_eqb m LStopped) then Some (inc s) else None) /\
+  (m = LStopped -> prun c t (Some (inc s)) = Some None) /\ inc s' = inc s.
+Proof.
+  intros H. apply recv_inv in H as (ta & -> & H). pose proof (do_actions_panics _ _ _ _ _ H) as Hp.
+  apply do_actions_frame in H as [(Hi & _) Hh]. cbn [prun pstep]. rewrite Hp.
+  split; [apply prun_norecv, hev_norecv, Hh|]. split; [|exact Hi].
+  intros ->. rewrite Nat.eqb_refl. cbn. apply prun_norecv, hev_norecv, Hh.
+Qed.
+
+Lemma invoke_msg_pmon c s e s' t o : invoke_msg c s e = (s', t, o) ->
+  prun c t None = Some (if isP o then Some (inc s) else None) /\ inc s' = inc s.
+Proof.
+  unfold invoke_msg. destruct (emsg e).
+  - intros H. apply recv_pmon in H as (H1 & _ & H2). cbn [inc upd_csender lmsg_eqb negb] in *.
+    rewrite andb_true_r in H1. split; assumption.
+  - intros [= <- <- <-]. split; reflexivity.
+Qed.
+
+Lemma drain_pmon c : forall l s n sk s' t o np sk', drain c s l n sk = (s', t, o, np, sk') ->
+  prun c t None = Some (if isP o then Some (inc s) else None) /\ inc s' = inc s.
+Proof.
+  induction l as [|e l IH]; intros s n sk s' t o np sk' H; cbn [drain] in H.
+  - injection H as <- <- <- <- <-. split; reflexivity.
+  - destruct (emsg e) eqn:Ee; [|eapply IH; exact H].
+    destruct (invoke_msg c s e) as [[s1 t1] o1] eqn:E1. apply invoke_msg_pmon in E1 as [P1 I1]. destruct o1.
+    + destruct (drain c s1 l (S n) sk) as [[[[s2 t2] o2] np2] sk2] eqn:E2. injection H as <- <- <- <- <-.
+      apply IH in E2 as [P2 I2]. rewrite I1 in P2. split; [eapply prun_app_some; eassumption|congruence].
+    + injection H as <- <- <- <- <-. split; assumption.
+Qed.
+
+Lemma cleanup_pmon c s k s' t : cleanup c s k = (s', t, Normal) ->
+  prun c t None = Some None /\ prun c t (Some (inc s)) = Some None /\ inc s' = inc s.
+Proof.
+  intros H. apply cleanup_normal_inv in H as (s1 & t1 & E & -> & ->).
+  apply recv_pmon in E as (P1 & P2 & I1). cbn [inc upd_istopped upd_dead isP andb lmsg_eqb negb] in *.
+  assert (Hn : Forall norecv (RegRemove :: EvStopped :: flat_map discard (queue s1) ++ match k with Some k0 => [Cancel k0] | None => [] end)).
+  { constructor; [exact I|]. constructor; [exact I|]. apply Forall_app; split; [apply hev_norecv, flat_discard_hev|destruct k; repeat constructor]. }
+  rewrite !prun_cons_norecv by exact I. rewrite !prun_app, P1, (P2 eq_refl), !(prun_norecv _ _ _ Hn).
+  repeat split. exact I1.
+Qed.
+
+Lemma invoke_loop_pmon c (Hs : stopped_safe c) : forall l s n s' t o np d,
+  invoke_loop c s l n = (s', t, o, np, d) ->
+  prun c t None = Some (if isP o then Some (inc s) else None) /\ inc s' = inc s.
+Proof.
+  induction l as [|e l IH]; intros s n s' t o np d H; cbn [invoke_loop] in H.
+  - injection H as <- <- <- <- <-. split; reflexivity.
+  - destruct (emsg e) eqn:Ee.
+    + destruct (invoke_msg c s e) as [[s1 t1] o1] eqn:E1. apply invoke_msg_pmon in E1 as [P1 I1]. destruct o1.
+      * destruct (invoke_loop c s1 l (S n)) as [[[[s2 t2] o2] np2] d2] eqn:E2. injection H as <- <- <- <- <-.
+        apply IH in E2 as [P2 I2]. rewrite I1 in P2. split; [eapply prun_app_some; eassumption|congruence].
+      * injection H as <- <- <- <- <-. split; assumption.
+    + assert (Hd : exists s1 t1 o1 np1 sk1,
+          (if graceful then drain c s l (S n) [] else (s, [], Normal, S n, [])) = (s1, t1, o1, np1, sk1) /\
+          prun c t1 None = Some (if isP o1 then Some (inc s) else None) /\ inc s1 = inc s).
+      { destruct graceful.
+        - destruct (drain c s l (S n) []) as [[[[s1 t1] o1] np1] sk1] eqn:E1. exists s1, t1, o1, np1, sk1.
+          split; [reflexivity|]. eapply drain_pmon; exact E1.
+        - exists s, [], Normal, (S n), []. repeat split. }
+      destruct Hd as (s1 & t1 & o1 & np1 & sk1 & Heq & P1 & I1). rewrite Heq in H. clear Heq. destruct o1.
+      * destruct (cleanup c s1 (Some k)) as [[s2 t2] o2] eqn:E2.
+        pose proof (cleanup_safe _ _ _ _ _ _ Hs E2) as ->. apply cleanup_pmon in E2 as (P2 & _ & I2).
+        injection H as <- <- <- <- <-. split; [|congruence]. cbn [isP] in *.
+        eapply prun_app_some; [exact P1|]. eapply prun_app_some; [exact P2|].
+        apply prun_norecv, hev_norecv, discard_rest_hev.
+      * injection H as <- <- <- <- <-. split; assumption.
+Qed.
+
+Theorem safe_pmon c (Hs : stopped_safe c) :
+  (forall s msgs s' t, Invoke_s c s msgs s' t -> prun c t None = Some None) /\
+  (forall s s' t, Start_s c s s' t -> prun c t None = Some None) /\
+  (forall s b s' t, Restart_s c s b s' t -> prun c t (Some (inc s)) = Some None).
+Proof.
+  apply safe_mutind.
+  - intros s msgs s' t np d El. apply (invoke_loop_pmon c Hs) in El as [P _]. exact P.
+  - intros s msgs s1 t1 b np d s' t2 El _ IH. apply (invoke_loop_pmon c Hs) in El as [P I1].
+    cbn [isP inc upd_mbuf] in *. rewrite I1 in IH. eapply prun_app_some; eassumption.
+  - intros s si ti b s' t' Ei _ IH. apply recv_pmon in Ei as (P1 & _ & I1).
+    cbn [isP andb lmsg_eqb negb inc upd_inc] in *. rewrite I1 in IH.
+    rewrite prun_cons_norecv by exact I. eapply prun_app_some; eassumption.
+  - intros s si ti s2 ts b s' t' Ei Es _ IH. apply recv_pmon in Ei as (P1 & _ & I1). apply recv_pmon in Es as (P2 & _ & I2).
+    cbn [isP andb lmsg_eqb negb inc upd_inc] in *. rewrite I2 in IH.
+    rewrite prun_cons_norecv by exact I. eapply prun_app_some; [exact P1|].
+    rewrite prun_cons_norecv by exact I. eapply prun_app_some; eassumption.
+  - intros s si ti s2 ts Ei Es Hb. apply recv_pmon in Ei as (P1 & _ & I1). apply recv_pmon in Es as (P2 & _ & I2).
+    cbn [isP andb lmsg_eqb negb inc upd_inc] in *.
+    rewrite prun_cons_norecv by exact I. eapply prun_app_some; [exact P1|].
+    rewrite prun_cons_norecv by exact I. eapply prun_app_some; [exact P2|].
+    rewrite prun_cons_norecv by exact I. apply prun_norecv. unfold start_end. destruct (dead s2); repeat constructor.
+  - intros s si ti s2 ts s3 t3 Ei Es Hb _ IH. apply recv_pmon in Ei as (P1 & _ & I1). apply recv_pmon in Es as (P2 & _ & I2).
+    cbn [isP andb lmsg_eqb negb inc upd_inc] in *.
+    rewrite prun_cons_norecv by exact I. eapply prun_app_some; [exact P1|].
+    rewrite prun_cons_norecv by exact I. eapply prun_app_some; [exact P2|].
+    rewrite prun_cons_norecv by exact I. eapply prun_app_some; [exact IH|].
+    apply prun_norecv. unfold start_end. destruct (dead (upd_mbuf s3 [])); repeat constructor.
+  - intros s s1 t1 s' t' E1 _ IH. apply recv_pmon in E1 as (_ & P1 & I1).
+    eapply prun_app_some; [exact (P1 eq_refl)|]. rewrite prun_cons_norecv by exact I. exact IH.
+  - intros s s1 t1 Hmax E1. apply cleanup_pmon in E1 as (_ & P1 & _).
+    rewrite prun_cons_norecv by exact I. eapply prun_app_some; [exact P1|].
+    apply prun_norecv, hev_norecv, flat_discard_hev.
+  - intros s s1 t1 s' t3 Hne E1 _ IH. apply recv_pmon in E1 as (_ & P1 & I1).
+    eapply prun_app_some; [exact (P1 eq_refl)|]. rewrite !prun_cons_norecv by exact I. exact IH.
+Qed.
+
+Lemma RunLoop_pmon c (Hs : stopped_safe c) s s' t : RunLoop_s c s s' t -> prun c t None = Some None.
+Proof.
+  induction 1 as [s E|s E Eq|s s1 t1 s2 t2 E Eq Hi _ IH]; try reflexivity.
+  eapply prun_app_some; [apply (proj1 (safe_pmon c Hs) _ _ _ _ Hi)|exact IH].
+Qed.
+
+Lemma Exts_pmon c (Hs : stopped_safe c) s xs s' t : Exts_s c s xs s' t -> prun c t None = Some None.
+Proof.
+  induction 1 as [s|s x s1 t1 s2 t2 xs s3 t3 Ep Hl _ IH]; [reflexivity|].
+  apply ext_pre_frame in Ep as [_ Hh]. eapply prun_app_some; [apply prun_norecv, hev_norecv, Hh|].
+  eapply prun_app_some; [eapply RunLoop_pmon; eassumption|exact IH].
+Qed.
+
+Theorem Run_pmon c (Hs : stopped_safe c) xs s t : Run_s c xs s t -> prun c t None = Some None.
+Proof.
+  intros [s0 t0 s1 t1 s2 t2 H0 H1 H2].
+  eapply prun_app_some; [apply (proj1 (proj2 (safe_pmon c Hs)) _ _ _ H0)|].
+  eapply prun_app_some; [eapply RunLoop_pmon; eassumption|eapply Exts_pmon; eassumption].
+Qed.
+
+Lemma lmsg_eqb_eq a b : lmsg_eqb a b = true -> a = b.
+Proof. destruct a, b; cbn; try discriminate; try reflexivity. intros H. apply Nat.eqb_eq in H. subst. reflexivity. Qed.
+Lemma lmsg_eqb_refl a : lmsg_eqb a a = true.
+Proof. destruct a; cbn; try reflexivity. apply Nat.eqb_refl. Qed.
+
+Lemma prun_pts c tbl : (forall i m, scr c i m = lookup tbl i m) ->
+  forall t pend, prun c t pend = Some None ->
+  match pend with
+  | None => True
+  | Some j => match recvs_of t with r :: _ => or_inc r = j /\ or_msg r = LStopped | [] => False end
+  end /\ panic_then_stopped tbl (recvs_of t) = true.
+Proof.
+  intros Hscr. induction t as [|e t IH]; intros pend H.
+  - cbn in H. injection H as ->. split; [exact I|reflexivity].
+  - cbn [prun] in H. destruct e as [ |i mw m sd| | | | | | | | | | | | | | | ];
+      try (cbn [pstep] in H; cbn [recvs_of]; apply IH; exact H).
+    cbn [pstep] in H. cbn [recvs_of]. destruct pend as [j|].
+    + destruct ((i =? j) && lmsg_eqb m LStopped) eqn:Ec; [|discriminate].
+      apply andb_true_iff in Ec as [E1 E2]. apply Nat.eqb_eq in E1. apply lmsg_eqb_eq in E2. subst.
+      destruct (IH _ H) as [_ Hp]. split; [split; reflexivity|].
+      cbn [panic_then_stopped or_inc or_msg lmsg_eqb negb]. rewrite andb_false_r. exact Hp.
+    + destruct (IH _ H) as [Hn Hp]. split; [exact I|].
+      cbn [panic_then_stopped or_inc or_msg]. rewrite <- Hscr, Hp, andb_true_r.
+      destruct (panics (scr c i m) && negb (lmsg_eqb m LStopped)); [|reflexivity].
+      destruct (recvs_of t) as [|r l]; [contradiction|]. destruct Hn as [-> ->]. rewrite Nat.eqb_refl. reflexivity.
+Qed.
+
+(** C05: after a delivery whose handler panics (Initialized, Started or a
+    user message) the next delivery is Stopped, to the same incarnation *)
+Theorem C05_panic_then_stopped_thm :
+  forall f c xs s t, stopped_safe c -> run f c xs = (s, t) -> out_of_fuel t = false ->
+  prun c t None = Some None.
+Proof. intros f c xs s t Hs H Hf. apply (Run_pmon c Hs xs s). eapply run_sound; eassumption. Qed.
+
+(* ------------------------------------------------------------------ *)
+(** * F. Soundness of the oracles of ProcExec.v
+
+    [selfcase c] is the case [c] whose observation is the model's own
+    projection of its run.  Each oracle accepts it under the premises of the
+    theorems it encodes: the differential check therefore compares the
+    implementation against a predicate every model run satisfies. *)
+Definition model_obs (c : case) : obs :=
+  {| o_recvs := recvs_of (snd (model c));
+     o_events := events_of (snd (model c));
+     o_pills := map (fun k => {| op_done := cancelled (snd (model c)) k; op_early := false; op_reg_at_done := false |})
+                    (seq 0 (npill (fst (model c))));
+     o_sends := sends_of (snd (model c));
+     o_escaped := has_escaped (snd (model c));
+     o_hang := false;
+     o_spawn_started := started_in_spawn (cfg_of c);
+     o_registered := registered (fst (model c)) |}.
+
+Definition selfcase (c : case) : case :=
+  {| c_prop := c_prop c; c_maxr := c_maxr c; c_chain := c_chain c; c_table := c_table c;
+     c_ops := c_ops c; c_obs := model_obs c |}.
+
+Lemma model_selfcase c : model (selfcase c) = model c.
+Proof. reflexivity. Qed.
+
+Lemma model_run c : run FUEL (cfg_of c) (c_ops c) = (fst (model c), snd (model c)).
+Proof. unfold model. destruct (run FUEL (cfg_of c) (c_ops c)); reflexivity. Qed.
+
+(* the Stopped rules of a table do not panic: a decidable form of [stopped_safe] *)
+Definition stopped_safe_tbl (tbl : list rule) : bool :=
+  forallb (fun r => negb (lmsg_eqb (r_on r) LStopped) || negb (panics (r_do r))) tbl.
+
+Lemma panics_false_nopanic acts : panics acts = false -> Forall nopanic acts.
+Proof.
+  unfold panics. induction acts as [|a acts IH]; intros H; [constructor|]. cbn [existsb] in H.
+  apply orb_false_iff in H as [H1 H2]. constructor; [|apply IH, H2]. split; intros ->; discriminate.
+Qed.
+
+Lemma lookup_nopanic tbl i m :
+  (forall r, In r tbl -> r_on r = m -> panics (r_do r) = false) -> Forall nopanic (lookup tbl i m).
+Proof.
+  induction tbl as [|r tbl IH]; intros H; cbn [lookup]; [constructor|].
+  destruct ((Nat.eqb (r_inc r) 0 || Nat.eqb (r_inc r) i) && lmsg_eqb (r_on r) m) eqn:E.
+  - apply andb_true_iff in E as [_ E]. apply lmsg_eqb_eq in E. apply panics_false_nopanic, H; [left; reflexivity|exact E].
+  - apply IH. intros r' Hr'. apply H. right; exact Hr'.
+Qed.
+
+Lemma stopped_safe_of_tbl c : stopped_safe_tbl (c_table c) = true -> stopped_safe (cfg_of c).
+Proof.
+  intros H i. cbn [scr cfg_of]. apply lookup_nopanic. intros r Hr Hon.
+  unfold stopped_safe_tbl in H. rewrite forallb_forall in H. specialize (H r Hr).
+  rewrite Hon in H. cbn in H. apply negb_true_iff in H. exact H.
+Qed.
+
+Lemma all2_refl {A} (f : A -> A -> bool) l : (forall a, f a a = true) -> all2 f l l = true.
+Proof. intros H. induction l as [|a l IH]; [reflexivity|]. cbn. rewrite H, IH. reflexivity. Qed.
+
+(** C13 *)
+Theorem oracle_c13_sound c : oracle_c13 (selfcase c) = true.
+Proof.
+  unfold oracle_c13. cbn [c_obs selfcase model_obs o_hang o_recvs negb andb].
+  pose proof (model_run c) as H. apply run_PA in H as [H _]. apply forallb_or_full_recvs, H.
+Qed.
+
+(** C04 *)
+Theorem oracle_c04_sound c :
+  stopped_safe (cfg_of c) -> out_of_fuel (snd (model c)) = false -> oracle_c04 (selfcase c) = true.
+Proof.
+  intros Hs Hf. unfold oracle_c04. cbn [c_obs c_table selfcase model_obs o_hang o_recvs o_spawn_started negb andb].
+  rewrite (C04_lifecycle_word_thm _ _ _ _ _ Hs (model_run c) Hf). cbn [andb].
+  destruct (existsb _ (c_table c)) eqn:Ex; [apply orb_true_r|]. rewrite orb_false_r.
+  assert (Hnp : forall m, m = LInit \/ m = LStarted -> forall i, Forall nopanic (scr (cfg_of c) i m)).
+  { intros m Hm i. cbn [scr cfg_of]. apply lookup_nopanic. intros r Hr Hon.
+    destruct (panics (r_do r)) eqn:Ep; [|reflexivity]. exfalso.
+    assert (Hx : existsb (fun r => match r_on r with LInit | LStarted => existsb (fun a => match a with APanic | APanicInternal => true | _ => false end) (r_do r) | _ => false end) (c_table c) = true).
+    { apply existsb_exists. exists r. split; [exact Hr|]. rewrite Hon. destruct Hm as [-> | ->]; exact Ep. }
+    rewrite Hx in Ex. discriminate Ex. }
+  assert (Hst : started_in_spawn (cfg_of c) = true).
+  { unfold started_in_spawn. change FUEL with (S 399).
+    destruct (start_nopanic_started (cfg_of c) 399 init_pst (Hnp LInit (or_introl eq_refl) _) (Hnp LStarted (or_intror eq_refl) _)) as [sd Hin].
+    destruct (start (S 399) (cfg_of c) init_pst) as [[s1 t1] o1]. cbn [fst snd] in Hin.
+    apply existsb_exists. eexists. split; [exact Hin|reflexivity]. }
+  rewrite Hst. reflexivity.
+Qed.
+
+(** C05 *)
+Theorem oracle_c05_sound c :
+  stopped_safe (cfg_of c) -> out_of_fuel (snd (model c)) = false -> NoDup (sends_of (snd (model c))) ->
+  oracle_c05 (selfcase c) = true.
+Proof.
+  intros Hs Hf Hnd. unfold oracle_c05.
+  cbn [c_obs c_table selfcase model_obs o_hang o_recvs o_events o_sends o_escaped negb].
+  pose proof (model_run c) as Hr. set (t := snd (model c)) in *. set (s := fst (model c)) in *.
+  rewrite (C05_contained_thm _ _ _ _ _ Hs Hr). cbn [negb andb].
+  destruct (C05_delivered_in_send_order_exactly_once_thm _ _ _ _ _ Hs Hr Hf) as (_ & _ & Hsub & Hn).
+  rewrite (subseqb_complete _ _ Hsub). cbn [andb].
+  destruct (C05_no_silent_loss_thm _ _ _ _ _ Hs Hr Hf) as (Hperm & Hlen & _).
+  rewrite <- Hlen, Nat.eqb_refl. cbn [andb].
+  assert (Hmem : forallb (fun n => existsb (Nat.eqb n) (user_payloads (recvs_of t)) || existsb (Nat.eqb n) (dead_payloads (events_of t))) (sends_of t) = true).
+  { apply forallb_forall. intros n Hin. apply (Permutation_in _ Hperm) in Hin. apply in_app_or in Hin as [Hin|Hin].
+    - apply orb_true_iff. left. apply existsb_exists. exists n. split; [exact Hin|apply Nat.eqb_refl].
+    - apply orb_true_iff. right. apply existsb_exists. exists n. split; [exact Hin|apply Nat.eqb_refl]. }
+  rewrite Hmem. cbn [andb].
+  destruct (C06_restarts_bounded_thm _ _ _ _ _ Hr) as (_ & Heq & _).
+  rewrite <- Heq, (all2_refl Nat.eqb _ Nat.eqb_refl). cbn [andb].
+  pose proof (C05_panic_then_stopped_thm _ _ _ _ _ Hs Hr Hf) as Hp.
+  destruct (prun_pts (cfg_of c) (c_table c) (fun _ _ => eq_refl) _ _ Hp) as [_ Hpts]. rewrite Hpts. cbn [andb].
+  apply nodupb_complete, Hn, Hnd.
+Qed.
+
+(** C06 *)
+Lemma events_senq t : Forall senqP t -> events_of t = [] /\ recvs_of t = [].
+Proof.
+  induction 1 as [|e t He _ [IH1 IH2]]; [split; reflexivity|]. destruct e; try contradiction; cbn; rewrite ?IH1, ?IH2; split; reflexivity.
+Qed.
+Definition dead_mev (e : mevent) : Prop := match e with MDeadUser _ | MDeadPill => True | _ => False end.
+Lemma events_deadP t : Forall deadP t -> Forall dead_mev (events_of t) /\ recvs_of t = [].
+Proof.
+  induction 1 as [|e t He _ [IH1 IH2]]; [split; [constructor|reflexivity]|].
+  destruct e as [ | | | | | | |[]| | | | | | | | | ]; try contradiction; cbn; (split; [|exact IH2]);
+    try exact IH1; constructor; try exact IH1; exact I.
+Qed.
+
+Lemma after_max_split : forall t rest, after_max (events_of t) = Some rest ->
+  exists t1 t2, t = t1 ++ EvMaxRestarts :: t2 /\ rest = events_of t2.
+Proof.
+  induction t as [|e t IH]; intros rest H; [discriminate|].
+  destruct e as [ | | | | | | |[]| | | | | | | | | ]; cbn in H;
+    try (destruct (IH _ H) as (t1 & t2 & -> & ->); eexists (_ :: t1), t2; split; reflexivity).
+  injection H as <-. exists [], t. split; reflexivity.
+Qed.
+
+Theorem oracle_c06_sound c :
+  stopped_safe (cfg_of c) -> out_of_fuel (snd (model c)) = false -> oracle_c06 (selfcase c) = true.
+Proof.
+  intros Hs Hf. unfold oracle_c06.
+  cbn [c_obs c_maxr selfcase model_obs o_hang o_recvs o_events o_escaped o_registered negb andb].
+  pose proof (model_run c) as Hr. set (t := snd (model c)) in *. set (s := fst (model c)) in *.
+  destruct (C06_restarts_bounded_thm _ _ _ _ _ Hr) as (Hle & _ & _). cbn [maxr cfg_of] in Hle.
+  apply Nat.leb_le in Hle. rewrite Hle. cbn [andb].
+  destruct (after_max (events_of t)) as [rest|] eqn:Ea; [|reflexivity].
+  apply after_max_split in Ea as (t1 & t2 & Et & ->).
+  destruct (C06_exceeding_stops_cleanly_thm _ _ _ _ _ Hs Hr Hf _ _ Et) as (Hreg & _ & _ & _ & Hesc & i & sd & h & t3 & -> & Hh & Ht3).
+  rewrite Hesc, Hreg. cbn [negb andb].
+  destruct (events_senq _ Hh) as [Eh Rh]. destruct (events_deadP _ Ht3) as [Ed Rd].
+  assert (Eev : events_of (InboxStop :: Recv i true LStopped sd :: h ++ RegRemove :: EvStopped :: t3) = MStopped :: events_of t3).
+  { cbn [events_of app]. rewrite events_of_app, Eh. reflexivity. }
+  rewrite Eev. cbn [existsb mevent_eqb orb andb].
+  assert (Hno : existsb (fun e => match e with MRestarted _ | MInitialized | MStarted => true | _ => false end) (events_of t3) = false).
+  { clear -Ed. induction Ed as [|e l He _ IH]; [reflexivity|]. cbn [existsb]. rewrite IH. destruct e; try contradiction; reflexivity. }
+  rewrite Hno. cbn [negb andb].
+  rewrite Et, recvs_of_app. cbn [recvs_of]. rewrite recvs_of_app, Rh. cbn [recvs_of app]. rewrite Rd.
+  rewrite rev_unit. reflexivity.
+Qed.
+
+(** C07 *)
+Lemma user_payloads_in l r n : In r l -> or_msg r = LUser n -> In n (user_payloads l).
+Proof.
+  induction l as [|a l IH]; intros Hin Hm; [contradiction|]. cbn [user_payloads]. destruct Hin as [->|Hin].
+  - rewrite Hm. left; reflexivity.
+  - destruct (or_msg a); try (apply IH; assumption). right. apply IH; assumption.
+Qed.
+
+Theorem oracle_c07_sound c :
+  stopped_safe (cfg_of c) -> out_of_fuel (snd (model c)) = false -> ~ In alien (sends_of (snd (model c))) ->
+  oracle_c07 (selfcase c) = true.
+Proof.
+  intros Hs Hf Hal. unfold oracle_c07. cbn [c_obs selfcase model_obs o_hang o_recvs o_pills negb andb].
+  pose proof (model_run c) as Hr. set (t := snd (model c)) in *. set (s := fst (model c)) in *.
+  apply andb_true_iff. split.
+  - apply forallb_forall. intros r Hin. apply negb_true_iff. destruct (lmsg_eqb (or_msg r) (LUser alien)) eqn:E; [|reflexivity].
+    exfalso. apply lmsg_eqb_eq in E. apply Hal.
+    destruct (C05_delivered_in_send_order_exactly_once_thm _ _ _ _ _ Hs Hr Hf) as (_ & _ & Hsub & _).
+    eapply Subseq_In; [exact Hsub|]. eapply user_payloads_in; eassumption.
+  - apply forallb_forall. intros p Hin. apply in_map_iff in Hin as (k & <- & Hk). apply in_seq in Hk.
+    cbn [op_done op_early op_reg_at_done negb andb]. rewrite andb_true_r, andb_true_r.
+    eapply C07_every_pill_cancelled_cor; [exact Hs|exact Hr|exact Hf|lia].
+Qed.
+
+(** all five *)
+Theorem C04567_13_oracle_sound_thm c :
+  stopped_safe (cfg_of c) -> out_of_fuel (snd (model c)) = false ->
+  NoDup (sends_of (snd (model c))) -> ~ In alien (sends_of (snd (model c))) ->
+  oracle (selfcase c) = true.
+Proof.
+  intros Hs Hf Hnd Hal.
+  pose proof (oracle_c04_sound c Hs Hf) as H4. pose proof (oracle_c05_sound c Hs Hf Hnd) as H5.
+  pose proof (oracle_c06_sound c Hs Hf) as H6. pose proof (oracle_c07_sound c Hs Hf Hal) as H7.
+  pose proof (oracle_c13_sound c) as H13.
+  unfold oracle. change (c_prop (selfcase c)) with (c_prop c).
+  destruct (c_prop c) as [|[|[|[|[|[|[|[|[|[|[|[|[|[|n]]]]]]]]]]]]]]; try assumption;
+    rewrite H4, H5, H6, H7, H13; reflexivity.
+Qed.
+
+(* the observation [model_obs] is what [corr] compares with *)
+Lemma orecv_eqb_refl r : orecv_eqb r r = true.
+Proof. unfold orecv_eqb. rewrite Nat.eqb_refl, lmsg_eqb_refl, !eqb_reflx. reflexivity. Qed.
+Lemma mevent_eqb_refl e : mevent_eqb e e = true.
+Proof. destruct e; cbn; try reflexivity; apply Nat.eqb_refl. Qed.
+
+Theorem corr_selfcase c : out_of_fuel (snd (model c)) = false -> corr (selfcase c) = true.
+Proof.
+  intros Hf. unfold corr. rewrite model_selfcase. destruct (model c) as [s t] eqn:Em. cbn [snd] in Hf.
+  unfold selfcase, model_obs. rewrite Em.
+  cbn [c_obs fst snd o_recvs o_events o_sends o_pills o_escaped o_hang o_spawn_started o_registered].
+  rewrite Hf, !(all2_refl _ _ orecv_eqb_refl), (all2_refl _ _ mevent_eqb_refl), (all2_refl _ _ Nat.eqb_refl).
+  rewrite map_length, seq_length, Nat.eqb_refl, map_map. cbn [op_done].
+  rewrite (all2_refl _ _ eqb_reflx), !eqb_reflx. reflexivity.
+Qed.
+
+(* ------------------------------------------------------------------ *)
+(** * G. Non-vacuity: concrete scenarios that satisfy the premises and reach
+      the interesting branches (all by computation, FUEL = 400) *)
+Definition ex_rule i m a := {| r_inc := i; r_on := m; r_do := a |}.
+Definition ex_case tbl maxr ops : case :=
+  {| c_prop := 0; c_maxr := maxr; c_chain := 0; c_table := tbl; c_ops := ops;
+     c_obs := {| o_recvs := []; o_events := []; o_pills := []; o_sends := []; o_escaped := false;
+                 o_hang := false; o_spawn_started := false; o_registered := false |} |}.
+
+(* the premises of the theorems, and what the scenario shows *)
+Definition ex_ok (c : case) : bool :=
+  stopped_safe_tbl (c_table c) && negb (out_of_fuel (snd (model c))) &&
+  nodupb (sends_of (snd (model c))) && negb (existsb (Nat.eqb alien) (sends_of (snd (model c)))) &&
+  oracle (selfcase c) && corr (selfcase c).
+
+(* a restart with a backlog replayed: 1 panics, 2 and 3 go to incarnation 2, then 4 *)
+Definition ex_restart := ex_case [ex_rule 1 LStarted [ASend 1; ASend 2; ASend 3]; ex_rule 1 (LUser 1) [APanic]] 3 [XSend 4].
+Example ex_restart_ok :
+  ex_ok ex_restart = true /\ rcs (snd (model ex_restart)) = [1] /\
+  map (fun r => (or_inc r, or_msg r)) (recvs_of (snd (model ex_restart))) =
+    [(1, LInit); (1, LStarted); (1, LUser 1); (1, LStopped); (2, LInit); (2, LStarted); (2, LUser 2); (2, LUser 3); (2, LUser 4)].
+Proof. vm_compute. repeat split. Qed.
+
+(* the budget is exceeded with a message and a pill in the restart buffer: both are disposed of *)
+Definition ex_max := ex_case [ex_rule 1 LStarted [ASend 1; ASend 2; APoison]; ex_rule 0 (LUser 1) [APanic]] 0 [XSend 4; XStop].
+Example ex_max_ok :
+  ex_ok ex_max = true /\ has_max (snd (model ex_max)) = true /\ registered (fst (model ex_max)) = false /\
+  ddl (snd (model ex_max)) = [2; 4] /\ cnc (snd (model ex_max)) = [0; 1].
+Proof. vm_compute. repeat split. Qed.
+
+(* a graceful pill with a second (hard) pill behind it in the same batch *)
+Definition ex_two_pills := ex_case [ex_rule 1 LStarted [ASend 1; APoison; ASend 2; AStop; ASend 3]] 3 [].
+Example ex_two_pills_ok :
+  ex_ok ex_two_pills = true /\ dlv (snd (model ex_two_pills)) = [1; 2; 3] /\ cnc (snd (model ex_two_pills)) = [0; 1].
+Proof. vm_compute. repeat split. Qed.
+
+(* a crash while a graceful pill drains, with another pill passed over by the drain *)
+Definition ex_drain_crash :=
+  ex_case [ex_rule 1 LStarted [APoison; ASend 1; APoison; ASend 2; ASend 3]; ex_rule 1 (LUser 2) [APanic]] 3 [].
+Example ex_drain_crash_ok :
+  ex_ok ex_drain_crash = true /\ rcs (snd (model ex_drain_crash)) = [1] /\
+  dlv (snd (model ex_drain_crash)) = [1; 2; 3] /\ cnc (snd (model ex_drain_crash)) = [0; 1].
+Proof. vm_compute. repeat split. Qed.
+
+(* a hard pill met while the restart buffer is replayed (restart by InternalError, not counted) *)
+Definition ex_pill_in_replay :=
+  ex_case [ex_rule 1 LStarted [ASend 1; ASend 2; AStop; ASend 3]; ex_rule 1 (LUser 1) [APanicInternal]] 3 [XSend 9].
+Example ex_pill_in_replay_ok :
+  ex_ok ex_pill_in_replay = true /\ rcs (snd (model ex_pill_in_replay)) = [] /\
+  dlv (snd (model ex_pill_in_replay)) = [1; 2] /\ ddl (snd (model ex_pill_in_replay)) = [3; 9] /\
+  inc (fst (model ex_pill_in_replay)) = 2.
+Proof. vm_compute. repeat split. Qed.
+
+(* Stop, then Poison of the stopped actor, then a send *)
+Definition ex_pill_for_stopped := ex_case [] 1 [XSend 1; XStop; XPoison; XSend 2].
+Example ex_pill_for_stopped_ok :
+  ex_ok ex_pill_for_stopped = true /\ cnc (snd (model ex_pill_for_stopped)) = [0; 1] /\
+  ddl (snd (model ex_pill_for_stopped)) = [2].
+Proof. vm_compute. repeat split. Qed.
+
+(* panics in Initialized and in Started *)
+Definition ex_lifecycle_panics :=
+  ex_case [ex_rule 1 LInit [APanic]; ex_rule 2 LStarted [ASend 7; APanic]] 2 [XSend 8].
+Example ex_lifecycle_panics_ok :
+  ex_ok ex_lifecycle_panics = true /\ rcs (snd (model ex_lifecycle_panics)) = [1; 2] /\
+  dlv (snd (model ex_lifecycle_panics)) = [7; 8] /\ inc (fst (model ex_lifecycle_panics)) = 3.
+Proof. vm_compute. repeat split. Qed.
+
+(* the premises hold of each of them as propositions *)
+Lemma ex_ok_premises c : ex_ok c = true ->
+  stopped_safe (cfg_of c) /\ out_of_fuel (snd (model c)) = false /\
+  NoDup (sends_of (snd (model c))) /\ ~ In alien (sends_of (snd (model c))).
+Proof.
+  unfold ex_ok. intros H.
+  apply andb_true_iff in H as [H _]. apply andb_true_iff in H as [H _].
+  apply andb_true_iff in H as [H Hal]. apply andb_true_iff in H as [H Hnd]. apply andb_true_iff in H as [Hsf Hfu].
+  split; [apply stopped_safe_of_tbl; exact Hsf|]. split; [apply negb_true_iff; exact Hfu|]. split.
+  - revert Hnd. generalize (sends_of (snd (model c))).
+    induction l as [|x l IH]; intros Hn; [constructor|]. cbn [nodupb] in Hn. apply andb_true_iff in Hn as [Hx Hl].
+    constructor; [|apply IH, Hl]. intros Hin. apply negb_true_iff in Hx.
+    assert (existsb (Nat.eqb x) l = true) by (apply existsb_exists; exists x; split; [exact Hin|apply Nat.eqb_refl]). congruence.
+  - intros Hin. apply negb_true_iff in Hal.
+    assert (existsb (Nat.eqb alien) (sends_of (snd (model c))) = true)
+      by (apply existsb_exists; exists alien; split; [exact Hin|apply Nat.eqb_refl]). congruence.
+Qed.
+
+(** Why [stopped_safe] is needed: a Stopped handler that panics inside
+    cleanup is recovered by Invoke's deferred function, which delivers Stopped
+    a second time (tryRestart) — that second panic is raised from the recover
+    path and leaves the goroutine.  C04 (one Stopped) and C05 (containment)
+    both fail for such a receiver, in the model and in process.go alike. *)
+Definition ex_stopped_panics := ex_case [ex_rule 1 LStarted [APoison]; ex_rule 0 LStopped [APanic]] 3 [].
+Example stopped_handler_panic_refutes :
+  stopped_safe_tbl (c_table ex_stopped_panics) = false /\
+  out_of_fuel (snd (model ex_stopped_panics)) = false /\
+  has_escaped (snd (model ex_stopped_panics)) = true /\
+  c04_word (recvs_of (snd (model ex_stopped_panics))) 0 0 = false /\
+  cancelled (snd (model ex_stopped_panics)) 0 = true /\ registered (fst (model ex_stopped_panics)) = true.
+Proof. vm_compute. repeat split. Qed.
